@@ -268,6 +268,9 @@ func verifC14BuildQueue(ents string) (*test.Queue, error) {
 	return q, nil
 }
 
+// Wait until every goroutine spawned by the pass has finished: the goroutine count is back at
+// its value from before the pass, no operation latch is held, and the record of calls has been
+// stable over several scheduler yields.
 func verifC14Wait(base int) bool {
 	deadline := time.Now().Add(5 * time.Second)
 	for runtime.NumGoroutine() > base {
@@ -278,6 +281,62 @@ func verifC14Wait(base int) bool {
 		time.Sleep(20 * time.Microsecond)
 	}
 	return true
+}
+
+func verifC14Settle(sch *Scheduler, p *verifC14Pool, base int) bool {
+	count := func() int {
+		p.Lock()
+		defer p.Unlock()
+		n := len(p.calls)
+		for _, e := range p.effects {
+			n += len(e)
+		}
+		return n
+	}
+	deadline := time.Now().Add(5 * time.Second)
+	stable, last := 0, -1
+	for stable < 3 {
+		if time.Now().After(deadline) {
+			return false
+		}
+		for i := 0; i < 20; i++ {
+			runtime.Gosched()
+		}
+		time.Sleep(30 * time.Microsecond)
+		sch.mtx.Lock()
+		held := 0
+		for _, op := range sch.uuidOp {
+			if op != "held-by-case" {
+				held++
+			}
+		}
+		sch.mtx.Unlock()
+		n := count()
+		if runtime.NumGoroutine() <= base && held == 0 && n == last {
+			stable++
+		} else {
+			stable = 0
+		}
+		last = n
+	}
+	return true
+}
+
+// make sure nothing from an earlier case is still winding down before a baseline is taken
+func verifC14Quiesce() int {
+	last, stable := runtime.NumGoroutine(), 0
+	for i := 0; i < 200 && stable < 3; i++ {
+		runtime.Gosched()
+		time.Sleep(10 * time.Microsecond)
+		n := runtime.NumGoroutine()
+		if n == last {
+			stable++
+		} else {
+			stable = 0
+		}
+		last = n
+	}
+	return last
 }
 
 func verifC14Effects(p *verifC14Pool) string {
@@ -389,9 +448,9 @@ func verifC14Fs(f []string) string {
 	sch.fixStaleLocks()
 	out := take(true)
 	for pass := 0; pass < 2; pass++ {
-		base := runtime.NumGoroutine()
+		base := verifC14Quiesce()
 		sch.runQueue()
-		if !verifC14Wait(base) {
+		if !verifC14Wait(base) || !verifC14Settle(sch, p, base) {
 			return "goroutines-did-not-finish"
 		}
 		out += ";" + take(false)
@@ -472,9 +531,9 @@ func verifC14Case(line string) (out string) {
 			}
 			sch.uuidOp[test.ContainerUUID(n)] = "held-by-case"
 		}
-		base := runtime.NumGoroutine()
+		base := verifC14Quiesce()
 		sch.runQueue()
-		if !verifC14Wait(base) {
+		if !verifC14Wait(base) || !verifC14Settle(sch, p, base) {
 			return "goroutines-did-not-finish"
 		}
 		p.Lock()
@@ -524,9 +583,9 @@ func verifC14Case(line string) (out string) {
 			}
 			sch.uuidOp[test.ContainerUUID(n)] = "held-by-case"
 		}
-		base := runtime.NumGoroutine()
+		base := verifC14Quiesce()
 		sch.sync()
-		if !verifC14Wait(base) {
+		if !verifC14Wait(base) || !verifC14Settle(sch, p, base) {
 			return "goroutines-did-not-finish"
 		}
 		p.Lock()
